@@ -41,9 +41,10 @@ type SIndex struct{ X, I SExpr }
 type SSliceE struct{ X, Lo, Hi SExpr }
 type SQVar struct{ Name, Type string }
 type SQuant struct {
-	Forall bool
-	Vars   []SQVar
-	Body   SExpr
+	Forall   bool
+	Vars     []SQVar
+	Body     SExpr
+	Triggers [][]SExpr
 }
 type STypeAssert struct { // x.(T)
 	X SExpr
@@ -194,6 +195,23 @@ func (p *sparser) parseQuant() (SExpr, error) {
 	}
 	if err := p.expectOp("::"); err != nil {
 		return nil, err
+	}
+	// optional triggers: { e1, e2 } { e3 }
+	for p.isOp("{") {
+		p.next()
+		var grp []SExpr
+		for !p.isOp("}") {
+			e, err := p.parseExpr()
+			if err != nil {
+				return nil, err
+			}
+			grp = append(grp, e)
+			if p.isOp(",") {
+				p.next()
+			}
+		}
+		p.next()
+		q.Triggers = append(q.Triggers, grp)
 	}
 	body, err := p.parseExpr()
 	if err != nil {
